@@ -39,9 +39,14 @@ const (
 	StructRMAfterPlain Kind = "struct-rm-after-plain-call"
 	// UrlMany: strings only; the parameter is the 151st of 200 (percent-encoded value).
 	UrlMany Kind = "url-parameter-151-of-200"
+	// UrlTwice: strings only; the parameter occurs twice, first without a value (k=&a=1&k=<value>&z=2): every occurrence
+	// is judged, and an empty one is skipped like any empty value (so: not for rule lists that hold required).
+	UrlTwice Kind = "url-parameter-given-twice"
+	// UrlRMReused: strings only; one rule object serves two Url calls in a row: it is the caller's, and still complete.
+	UrlRMReused Kind = "url-rule-object-used-twice"
 )
 
-var All = []Kind{StructTag, StructRM, Var, Map, MapIface, SliceMap, Url, UrlEsc, StructTagHist, StructTagOtherTag, StructTagLocalFn, VarLocalFn, StructTagWide, MapLarge, StructRMAfterPlain, UrlMany}
+var All = []Kind{StructTag, StructRM, Var, Map, MapIface, SliceMap, Url, UrlEsc, StructTagHist, StructTagOtherTag, StructTagLocalFn, VarLocalFn, StructTagWide, MapLarge, StructRMAfterPlain, UrlMany, UrlTwice, UrlRMReused}
 
 // Box is the named carrier type for per-call rules.
 type Box[T any] struct{ F T }
@@ -59,7 +64,7 @@ func PathPrefix(k Kind, v reflect.Value) string {
 		return "map[k]"
 	case SliceMap:
 		return "[0]map[k]"
-	case Url, UrlEsc, UrlMany:
+	case Url, UrlEsc, UrlMany, UrlTwice, UrlRMReused:
 		return "k"
 	}
 	return ""
@@ -211,7 +216,7 @@ func Supports(k Kind, v reflect.Value) bool {
 	switch k {
 	case Url:
 		return v.Kind() == reflect.String && !strings.ContainsAny(v.String(), "&=?#%+") && !hasCtl(v.String())
-	case UrlEsc, UrlMany:
+	case UrlEsc, UrlMany, UrlTwice, UrlRMReused:
 		return v.Kind() == reflect.String && !strings.ContainsAny(v.String(), "&=?#")
 	case StructRM:
 		return boxOf(v) != nil
@@ -326,6 +331,12 @@ func Validate(k Kind, v reflect.Value, rules string) (string, bool) {
 		err = valid.Url("http://h/p?k="+v.String(), valid.RM{"k": rules})
 	case UrlEsc:
 		err = valid.Url("http://h/p?a=1&k="+url.QueryEscape(v.String())+"&z=2", valid.RM{"k": rules})
+	case UrlTwice:
+		err = valid.Url("http://h/p?k=&a=1&k="+url.QueryEscape(v.String())+"&z=2", valid.RM{"k": rules})
+	case UrlRMReused:
+		rm := valid.RM{"k": rules, "a": "to=1~9"}
+		_ = valid.Url("http://h/p?a=1&k=other&z=2", rm)
+		err = valid.Url("http://h/p?a=1&k="+url.QueryEscape(v.String())+"&z=2", rm)
 	}
 	if err == nil {
 		return "", true
